@@ -299,10 +299,14 @@ func verifTensorLine(ts []verifTensor) string {
 type verifWT struct {
 	data []byte
 	mode int
-	id   int // position in the caller's list: how the driver recognises the tensor after WriteGGUF's sort
+	id   int    // position in the caller's list: how the driver recognises the tensor after WriteGGUF's sort
+	seq  *[]int // when set, WriteTo appends id: the order of the data section IS the order of the WriteTo calls
 }
 
 func (w verifWT) WriteTo(dst io.Writer) (int64, error) {
+	if w.seq != nil {
+		*w.seq = append(*w.seq, w.id)
+	}
 	switch w.mode {
 	case 2:
 		h := len(w.data) / 2
@@ -335,7 +339,7 @@ func verifC05FailingSource(out *zzverif.Out, dir string, kvs []verifKV, ts []ver
 		if i == bad {
 			mode = 4
 		}
-		gts[i] = Tensor{Name: t.name, Kind: t.kind, Shape: t.shape, WriterTo: verifWT{t.data, mode, i}}
+		gts[i] = Tensor{Name: t.name, Kind: t.kind, Shape: t.shape, WriterTo: verifWT{t.data, mode, i, nil}}
 	}
 	f, err := os.Create(filepath.Join(dir, "c05-fail.gguf"))
 	if err != nil {
@@ -414,12 +418,13 @@ func verifWrite(dir string, kvs []verifKV, ts []verifTensor) (data []byte, order
 		kv[e.key] = e.val
 	}
 	gts := make([]Tensor, len(ts))
+	var seq []int
 	for i, t := range ts {
 		// the data source's WriteTo result is not part of the contract WriteGGUF may rely on for the layout
 		// (every WriterTo in convert/ writes its bytes and returns 0): vary it, the file must not depend on it.
 		// The source also carries the tensor's position in the caller's list: WriteGGUF sorts the slice in place and may
 		// assign any Tensor field, so the order it wrote is read back from the sources, not from a field.
-		gts[i] = Tensor{Name: t.name, Kind: t.kind, Shape: t.shape, WriterTo: verifWT{t.data, (len(t.data) + i) % 4, i}}
+		gts[i] = Tensor{Name: t.name, Kind: t.kind, Shape: t.shape, WriterTo: verifWT{t.data, (len(t.data) + i) % 4, i, &seq}}
 	}
 	f, err := os.Create(filepath.Join(dir, "c05.gguf"))
 	if err != nil {
@@ -430,8 +435,13 @@ func verifWrite(dir string, kvs []verifKV, ts []verifTensor) (data []byte, order
 	if err := verifC05CallWrite(f, kv, gts); err != nil {
 		return nil, nil, err
 	}
-	for _, g := range gts {
-		order = append(order, ts[g.WriterTo.(verifWT).id])
+	// the order the writer laid the tensors out in = the order it asked the sources for their bytes (independent of
+	// whether the sort works in place or on a copy); every source must have been asked exactly once
+	if len(seq) != len(ts) {
+		return nil, nil, fmt.Errorf("verif: WriteGGUF asked %d of %d tensor sources for data", len(seq), len(ts))
+	}
+	for _, id := range seq {
+		order = append(order, ts[id])
 	}
 	if _, err := f.Seek(0, io.SeekStart); err != nil {
 		return nil, nil, err
@@ -690,6 +700,9 @@ func TestVerifC05(t *testing.T) {
 	}
 	root := zzverif.NewRng(zzverif.Seed())
 	n := zzverif.EnvInt("VERIF_N", 2000)
+	// the writer the tree is EXPECTED to have validates general.alignment (C05 F1c, repaired in /repo by c8efab438): the
+	// check requires this counter, so a tree that lost the repair is reported (besides the L2 decode-error on its files)
+	out.Add("writer_validates_alignment", verifC05Variant(dir)/2)
 	// corpus first: the minimal F1 witness (three 4-byte tensors)
 	three := []verifTensor{{"a", 0, []uint64{1}, []byte{1, 2, 3, 4}}, {"b", 0, []uint64{1}, []byte{5, 6, 7, 8}}, {"c", 0, []uint64{1}, []byte{9, 10, 11, 12}}}
 	verifC05Case(out, dir, nil, three, 0)
@@ -770,7 +783,10 @@ func verifC05Replay(t *testing.T, out *zzverif.Out, dir, path string) {
 		}
 		ts = append(ts, verifTensor{name, kind, shape, zzverif.Unhex(next())})
 	}
-	verifC05Case(out, dir, kvs, ts, 0)
+	// the case line does not carry the array limit the failing case ran with: replay under all three
+	for _, maxArray := range []int{0, -1, 3} {
+		verifC05Case(out, dir, kvs, ts, maxArray)
+	}
 }
 
 // TestVerifC05Table executes the real typeSize/blockSize for kinds 0..63 (the regenerated
